@@ -30,12 +30,12 @@ pub static DEF: PropDef = PropDef {
     level: "exploration",
     rule: "per case, in its own process: a real instance with a data model whose entity, field and alias names are storage-engine keywords, digit-first or non-ASCII identifiers; inputs: (a) requests valid by construction over that model (mutations, queries with filters / order / aliases, deletions), (b) character-level mutants of valid requests and model texts, (c) every parameter type x null for every field type, (d) rows, references and deletion records with empty, short, long or garbage keys and signatures given to the verification service and to the ingestion entry points, (e) JSON parameter documents, (f) invitation bytes, (g) malformed identity answers over the NewConnection seam. After every input: no new panic in any thread, the probe query answered parallelism+1 times concurrently, and for (a) no engine error. A death of the process is a violation. non-trivial = input class other than a plain valid request; distinct = (input kind, outcome class)",
     assumptions: &[
-        "a call that does not return within 10 s while the probe also fails is a wedge; a slow call with a healthy probe is inconclusive",
+        "a call that exceeds its allowance (60 s, x40 under valgrind) is only counted; the instance is declared wedged when the probe (parallelism+1 concurrent queries) is not answered within 30 s (x40 under valgrind)",
         "wire frames of the QUIC endpoint are not driven by this check (see DESIGN.md)",
     ],
     cases: |t| t.pick(48, 1000),
     shards: |t| t.pick(12, 16),
-    case_budget_s: |_| 240,
+    case_budget_s: |_| 1600,
     min_conclusive: |t| t.pick(16, 300),
     run_case,
     finish: None,
@@ -148,6 +148,12 @@ fn mutate_text(s: &str, rng: &mut StdRng) -> String {
     chars.into_iter().collect()
 }
 
+/// wall clock allowances are multiplied by DV_TIME_SCALE (set by the parent for sessions under valgrind)
+fn scaled(ms: u64) -> Duration {
+    let k: u64 = std::env::var("DV_TIME_SCALE").ok().and_then(|v| v.parse().ok()).unwrap_or(1);
+    Duration::from_millis(ms * k)
+}
+
 fn panic_site(msg: &str) -> String {
     // "thread '...' panicked: panicked at src/security.rs:80:8:\n..."
     if let Some(p) = msg.find("panicked at ") {
@@ -159,7 +165,7 @@ fn panic_site(msg: &str) -> String {
 }
 
 async fn probe(peer: &Peer, n: usize) -> bool {
-    let futs = (0..n).map(|_| async { tokio::time::timeout(Duration::from_secs(5), peer.query("query { Probe{ n } }", None)).await });
+    let futs = (0..n).map(|_| async { tokio::time::timeout(scaled(30_000), peer.query("query { Probe{ n } }", None)).await });
     let res = futures::future::join_all(futs).await;
     res.iter().all(|r| matches!(r, Ok(Ok(_))))
 }
@@ -321,7 +327,7 @@ async fn session(tier: Tier, seed: u64, case: u64, dir: std::path::PathBuf) -> A
             let text = mutate_text(&base, &mut rng);
             let t2 = text.clone();
             let which = if base.starts_with("mutate") { 0 } else if base.starts_with("query") { 1 } else if base.starts_with("delete") { 2 } else { 3 };
-            let r = tokio::time::timeout(Duration::from_secs(10), async {
+            let r = tokio::time::timeout(scaled(60_000), async {
                 match which {
                     0 => peer.mutate(&t2, None).await.is_ok(),
                     1 => peer.query(&t2, None).await.is_ok(),
@@ -389,7 +395,7 @@ async fn session(tier: Tier, seed: u64, case: u64, dir: std::path::PathBuf) -> A
                     }
                 }
             });
-            let r = tokio::time::timeout(Duration::from_secs(10), h).await;
+            let r = tokio::time::timeout(scaled(60_000), h).await;
             let outcome = match &r {
                 Ok(Ok(b)) => format!("returned {}", b),
                 Ok(Err(e)) => format!("task panicked: {}", e),
@@ -398,10 +404,8 @@ async fn session(tier: Tier, seed: u64, case: u64, dir: std::path::PathBuf) -> A
             let tname = ["verify_nodes", "verify_edges", "verify_node_log", "verify_edge_log", "add_nodes"][target];
             history.push(json!({"kind": "malformed-row", "variant": what, "entry_point": tname, "outcome": outcome}));
             if r.is_err() {
-                acc.violation(
-                    format!("C14/call-never-returns/{}/{}", tname, what),
-                    json!({"outcome": outcome, "panics": panic_messages().iter().rev().take(2).collect::<Vec<_>>()}),
-                );
+                // slow or stuck: the probe that follows decides (a healthy probe => counted, not a violation)
+                acc.count(&format!("call_exceeded_its_allowance/{}", tname), 1);
             }
             after_input!(format!("row-with-{}-to-{}", what, tname), json!({"variant": what, "entry_point": tname}), pb);
         } else if kind < 90 {
@@ -517,7 +521,7 @@ async fn session(tier: Tier, seed: u64, case: u64, dir: std::path::PathBuf) -> A
                         None
                     };
                     eprintln!("INPUT hostile-serving-peer/{}", kinds.join("+"));
-                    let r = tokio::time::timeout(Duration::from_secs(30), serve_batch(&peer, room.id, &batch, &mut rng, mangle)).await;
+                    let r = tokio::time::timeout(scaled(60_000), serve_batch(&peer, room.id, &batch, &mut rng, mangle)).await;
                     let outcome = match &r {
                         Ok(Ok(st)) => match &st.error { Some(e) => format!("pull error: {}", e.chars().take(80).collect::<String>()), None => "pull ok".to_string() },
                         Ok(Err(e)) => format!("not served: {}", e),
@@ -579,7 +583,7 @@ async fn session(tier: Tier, seed: u64, case: u64, dir: std::path::PathBuf) -> A
                         let sent = q_tx.send(QueryProtocol { id: qid, query }).await.is_ok();
                         let mut answers = 0;
                         let mut completed = false;
-                        while let Ok(Some(a)) = tokio::time::timeout(Duration::from_millis(if answers == 0 { 3000 } else { 300 }), a_rx.recv()).await {
+                        while let Ok(Some(a)) = tokio::time::timeout(scaled(if answers == 0 { 3000 } else { 300 }), a_rx.recv()).await {
                             answers += 1;
                             if a.id == qid && (a.complete || !a.success) {
                                 completed = true;
@@ -622,14 +626,14 @@ async fn session(tier: Tier, seed: u64, case: u64, dir: std::path::PathBuf) -> A
             _ => ("many-filters", format!("query {{ Probe({}){{ n }} }}", (0..3000).map(|i| format!("n = {}", i)).collect::<Vec<_>>().join(", "))),
         };
         eprintln!("INPUT extreme-request/{}", what);
-        let r = tokio::time::timeout(Duration::from_secs(30), async {
+        let r = tokio::time::timeout(scaled(60_000), async {
             if text.starts_with("mutate") { peer.mutate(&text, None).await.is_ok() } else if text.starts_with("query") { peer.query(&text, None).await.is_ok() } else { peer.db.update_data_model(&text).await.is_ok() }
         })
         .await;
         history.push(json!({"kind": "extreme-request", "what": what, "outcome": format!("{:?}", r)}));
         acc.distinct("extreme", format!("{} -> {:?}", what, r));
         if r.is_err() {
-            acc.violation(format!("C14/call-never-returns/extreme-request/{}", what), json!({"what": what}));
+            acc.count(&format!("call_exceeded_its_allowance/extreme-request-{}", what), 1);
         }
         after_input!(format!("extreme-request/{}", what), json!(what), pb);
     }
@@ -705,9 +709,9 @@ async fn session(tier: Tier, seed: u64, case: u64, dir: std::path::PathBuf) -> A
                     }
                     _ => (0..rng.gen_range(1..300)).map(|_| rng.gen()).collect(),
                 };
-                let _ = tokio::time::timeout(Duration::from_secs(10), d.accept_invite(bytes.clone())).await;
-                tokio::time::sleep(Duration::from_millis(30)).await;
-                let alive = tokio::time::timeout(Duration::from_secs(5), d.query("query { Probe{ n } }", None)).await.map(|r| r.is_ok()).unwrap_or(false);
+                let _ = tokio::time::timeout(scaled(60_000), d.accept_invite(bytes.clone())).await;
+                tokio::time::sleep(scaled(30)).await;
+                let alive = tokio::time::timeout(scaled(30_000), d.query("query { Probe{ n } }", None)).await.map(|r| r.is_ok()).unwrap_or(false);
                 acc.count("input/invitation-bytes", 1);
                 let newp = panics() - pb;
                 if newp > 0 {
@@ -734,7 +738,7 @@ async fn session(tier: Tier, seed: u64, case: u64, dir: std::path::PathBuf) -> A
                 let (_h_event_tx, d_event_rx) = mpsc::channel::<RemoteEvent>(8);
                 let info = ConnectionInfo { endpoint_id: [1; 16], remote_id: [variant as u8 + 2; 16], conn_id: [variant as u8 + 9; 16], meeting_token: token, peer_verifying_key: vec![] };
                 let _ = d.verif_peers().sender.send(PeerConnectionMessage::NewConnection(None, info, d_answer_tx, d_answer_rx, d_query_tx, d_query_rx, d_event_tx, d_event_rx)).await;
-                if let Ok(Some(QueryProtocol { id, query: Query::ProveIdentity(ch) })) = tokio::time::timeout(Duration::from_secs(2), h_query_rx.recv()).await {
+                if let Ok(Some(QueryProtocol { id, query: Query::ProveIdentity(ch) })) = tokio::time::timeout(scaled(3000), h_query_rx.recv()).await {
                     let who = Identity::new(seed, 60 + variant as u64);
                     let mut peer_node = discret::verif::database::system_entities::Peer::create([4; 16], b64(&[5u8; 32]));
                     let _ = peer_node.sign(&who.signing);
@@ -762,7 +766,7 @@ async fn session(tier: Tier, seed: u64, case: u64, dir: std::path::PathBuf) -> A
                     };
                     let _ = h_answer_tx.send(Answer { id, success: true, complete: true, serialized }).await;
                 }
-                tokio::time::sleep(Duration::from_millis(150)).await;
+                tokio::time::sleep(scaled(150)).await;
                 acc.count("input/identity-answer", 1);
                 let what = ["empty-key", "short-signature", "garbage-bytes", "peer-row-json-invalid", "peer-row-public-key-invalid"][variant];
                 let newp = panics() - pb;
@@ -770,7 +774,7 @@ async fn session(tier: Tier, seed: u64, case: u64, dir: std::path::PathBuf) -> A
                     let last = panic_messages().last().cloned().unwrap_or_default();
                     acc.violation(format!("C14/panic/identity-answer-{}/{}", what, panic_site(&last)), json!({"panic": last.chars().take(300).collect::<String>()}));
                 }
-                let alive = tokio::time::timeout(Duration::from_secs(5), d.query("query { Probe{ n } }", None)).await.map(|r| r.is_ok()).unwrap_or(false);
+                let alive = tokio::time::timeout(scaled(30_000), d.query("query { Probe{ n } }", None)).await.map(|r| r.is_ok()).unwrap_or(false);
                 if !alive {
                     acc.violation(format!("C14/instance-does-not-answer-the-next-request-after/identity-answer-{}", what), json!({}));
                     break;
@@ -785,7 +789,26 @@ fn run_case<'a>(ctx: &'a Ctx, case: u64, acc: &'a mut Acc) -> CaseFut<'a> {
     Box::pin(async move {
         let dir = ctx.case_dir(case);
         let exe = std::env::current_exe().unwrap();
-        let out = Command::new(exe)
+        std::fs::create_dir_all(&dir).unwrap();
+        // thorough tier: one session in fifty runs under valgrind memcheck: the C libraries under
+        // the storage layer are where a hostile row could corrupt memory without any panic
+        let memcheck = match ctx.tier {
+            Tier::Quick => false,
+            Tier::Thorough => case % 50 == 7,
+        } && std::path::Path::new("/usr/bin/valgrind").exists();
+        let mut cmd = if memcheck {
+            let mut c = Command::new("/usr/bin/valgrind");
+            c.arg("-q").arg("--error-exitcode=9").arg("--leak-check=no").arg(&exe);
+            c
+        } else {
+            Command::new(&exe)
+        };
+        if memcheck {
+            cmd.env("DV_TIME_SCALE", "40");
+        }
+        let out_path = dir.join("child.out");
+        let err_path = dir.join("child.err");
+        let out = cmd
             .arg("child")
             .arg("c14")
             .arg(ctx.tier.name())
@@ -793,8 +816,8 @@ fn run_case<'a>(ctx: &'a Ctx, case: u64, acc: &'a mut Acc) -> CaseFut<'a> {
             .arg(case.to_string())
             .arg(&dir)
             .stdin(Stdio::null())
-            .stdout(Stdio::piped())
-            .stderr(Stdio::piped())
+            .stdout(std::fs::File::create(&out_path).unwrap())
+            .stderr(std::fs::File::create(&err_path).unwrap())
             .spawn();
         let mut child = match out {
             Ok(c) => c,
@@ -809,7 +832,7 @@ fn run_case<'a>(ctx: &'a Ctx, case: u64, acc: &'a mut Acc) -> CaseFut<'a> {
             match child.try_wait() {
                 Ok(Some(s)) => break Some(s),
                 Ok(None) => {
-                    if start.elapsed() > Duration::from_secs(200) {
+                    if start.elapsed() > Duration::from_secs(if memcheck { 1500 } else { 400 }) {
                         let _ = child.kill();
                         let _ = child.wait();
                         break None;
@@ -819,14 +842,21 @@ fn run_case<'a>(ctx: &'a Ctx, case: u64, acc: &'a mut Acc) -> CaseFut<'a> {
                 Err(_) => break None,
             }
         };
-        let mut stdout = String::new();
-        let mut stderr = String::new();
-        use std::io::Read;
-        if let Some(mut o) = child.stdout.take() {
-            let _ = o.read_to_string(&mut stdout);
-        }
-        if let Some(mut e) = child.stderr.take() {
-            let _ = e.read_to_string(&mut stderr);
+        let stdout = String::from_utf8_lossy(&std::fs::read(&out_path).unwrap_or_default()).to_string();
+        let stderr = String::from_utf8_lossy(&std::fs::read(&err_path).unwrap_or_default()).to_string();
+        if memcheck {
+            acc.count("memcheck_sessions", 1);
+            let reports: Vec<&str> = stderr.lines().filter(|l| l.starts_with("==") && !l.contains("Warning")).collect();
+            if status.map(|s| s.code() == Some(9)).unwrap_or(false) || reports.iter().any(|l| l.contains("Invalid ") || l.contains("uninitialised")) {
+                let first = reports.iter().find(|l| l.contains("Invalid ") || l.contains("uninitialised") || l.contains("Mismatched")).copied().unwrap_or("");
+                let kind = first.split("== ").nth(1).unwrap_or("").split(" of size").next().unwrap_or("").split(" at ").next().unwrap_or("").trim().replace(' ', "-");
+                let last_input = stderr.lines().rev().find(|l| l.starts_with("INPUT ")).map(|l| l[6..].to_string()).unwrap_or_default();
+                acc.violation(
+                    format!("C14/memory-error-reported-by-memcheck/{}", kind),
+                    json!({"report": reports.iter().take(40).collect::<Vec<_>>(), "last_input": last_input.chars().take(200).collect::<String>()}),
+                );
+                return;
+            }
         }
         let result_line = stdout.lines().find(|l| l.starts_with("RESULT "));
         match (status, result_line) {
